@@ -324,8 +324,9 @@ def driver_programs(quick, rnd):
             picks = rules if not quick else [rules[0]] + rnd.sample(rules[1:], 2)
             for rule in picks:
                 prog = rule(leaf)
-                if prog['op'] in ('Bregman', 'InfConv') and fu.first_leaf(prog) not in FINITE_LEAVES:
-                    continue
+                if prog['op'] in ('Bregman', 'InfConv') and not all(
+                        o in FINITE_LEAVES or o in ('Bregman', 'InfConv', 'SepSum') for o in fu.ops_of(prog)):
+                    continue       # reference point of a Bregman distance / first operand: inside dom f
                 if prog['op'] == 'RVec' and kind == 'pspace':
                     continue
                 out.append(((kind, m, n, W), prog))
